@@ -59,12 +59,25 @@ impl Default for Options {
 
 pub trait Parse: Sized {
 	fn parse_slice(content: &[u8]) -> Result<(Self, CodeMap), Error> {
-		Self::parse_utf8(utf8_decode::Decoder::new(content.iter().copied()))
-			.map_err(Error::io_into_utf8)
+		Self::parse_slice_with(content, Options::default())
 	}
 
 	fn parse_slice_with(content: &[u8], options: Options) -> Result<(Self, CodeMap), Error> {
-		Self::parse_utf8_with(utf8_decode::Decoder::new(content.iter().copied()), options)
+		// `utf8_decode::Decoder` accepts overlong encodings, so the input is
+		// validated with the standard library instead. The well-formed prefix is
+		// parsed lazily and followed by a stream error if the input is ill-formed.
+		let (valid, ill_formed) = match core::str::from_utf8(content) {
+			Ok(s) => (s, None),
+			Err(e) => (
+				unsafe { core::str::from_utf8_unchecked(&content[..e.valid_up_to()]) },
+				Some(Err(io::Error::new(
+					io::ErrorKind::InvalidData,
+					"invalid UTF-8 sequence.",
+				))),
+			),
+		};
+
+		Self::parse_utf8_with(valid.chars().map(Ok).chain(ill_formed), options)
 			.map_err(Error::io_into_utf8)
 	}
 
